@@ -69,19 +69,20 @@ const (
 	ResetAfter       // executed, then the connection is reset: Read fails with EOF
 	ErrReply         // not executed; the server answers with an error line
 	Truncate         // executed; only the first half of the reply arrives, then EOF
+	Deferred         // the request stays in the network for ReqDelay and reaches the server then, even if the client has given up meanwhile (timed out, retried on another connection, closed this one)
 	DialRefused      // (dial time) connection refused
 	Outage           // (counter only) operation hit a server that is down
 	nKinds
 )
 
-var kindNames = [...]string{"none", "latency", "drop-request", "drop-reply", "reset-before", "reset-after", "error-reply", "truncated-reply", "dial-refused", "outage"}
+var kindNames = [...]string{"none", "latency", "drop-request", "drop-reply", "reset-before", "reset-after", "error-reply", "truncated-reply", "deferred-request", "dial-refused", "outage"}
 
 func (k Kind) String() string { return kindNames[k] }
 
 // Fault is the decision of the policy for one command.
 type Fault struct {
 	Kind     Kind
-	ReqDelay time.Duration // Latency: before the server sees the command
+	ReqDelay time.Duration // Latency / Deferred: before the server sees the command
 	RepDelay time.Duration // Latency: before the client can read the reply
 	Msg      string        // ErrReply: the error line (without the leading '-')
 }
@@ -107,7 +108,7 @@ func (c *Cmd) Handshake() bool {
 
 // Exec is the record of a command that the server executed.
 type Exec struct {
-	Seq   int           // server-side execution order (1-based)
+	Seq   int // server-side execution order (1-based)
 	Cmd   Cmd
 	Reply []byte        // raw RESP reply
 	At    time.Duration // virtual time since the start of the run
@@ -267,6 +268,14 @@ type conn struct {
 	pbuf     bytes.Buffer
 	pw       *bufio.Writer
 	peer     *server.Peer
+	queue    []pending // requests still in the network (Deferred), FIFO
+	worker   bool      // a delivery task for queue is running
+}
+
+type pending struct {
+	cmd Cmd
+	f   Fault
+	due time.Time
 }
 
 type timeoutErr struct{}
@@ -427,10 +436,52 @@ func (c *conn) handle(args []string) error {
 			s.fire(Latency)
 		}
 	}
-	// execute at the server, now
+	if f.Kind == Deferred || len(c.queue) > 0 {
+		// the request is on its way; it is delivered (in order, per connection) by a background task
+		due := time.Now()
+		if f.Kind == Deferred {
+			s.fire(Deferred)
+			due = due.Add(f.ReqDelay)
+		}
+		if n := len(c.queue); n > 0 && c.queue[n-1].due.After(due) {
+			due = c.queue[n-1].due
+		}
+		c.queue = append(c.queue, pending{cmd: cmd, f: f, due: due})
+		if !c.worker {
+			c.worker = true
+			simrt.GoBg("simredis.deferred-delivery", c.deliver)
+		}
+		return nil
+	}
+	c.execute(cmd, f)
+	return nil
+}
+
+// deliver hands the queued requests of this connection to the server when they are due.
+func (c *conn) deliver() {
+	for len(c.queue) > 0 {
+		if d := time.Until(c.queue[0].due); d > 0 {
+			simrt.Sleep(d)
+		}
+		simrt.Yield("simredis.request")
+		p := c.queue[0]
+		c.queue = c.queue[1:]
+		if c.s.down {
+			c.s.fire(Outage)
+			c.broken = true
+			continue
+		}
+		c.execute(p.cmd, p.f)
+	}
+	c.worker = false
+}
+
+// execute runs one command at the server, now, and queues its reply.
+func (c *conn) execute(cmd Cmd, f Fault) {
+	s := c.s
 	s.Sync()
 	c.pbuf.Reset()
-	s.mr.Server().Dispatch(c.peer, args)
+	s.mr.Server().Dispatch(c.peer, cmd.Args)
 	c.pw.Flush()
 	data := append([]byte(nil), c.pbuf.Bytes()...)
 	s.nExec++
@@ -450,7 +501,6 @@ func (c *conn) handle(args []string) error {
 	default:
 		c.replies = append(c.replies, reply{data: data, at: time.Now().Add(f.RepDelay)})
 	}
-	return nil
 }
 
 func (c *conn) Read(p []byte) (int, error) {
@@ -485,6 +535,16 @@ func (c *conn) Read(p []byte) (int, error) {
 		var until time.Time
 		if len(c.replies) > 0 {
 			until = c.replies[0].at
+		} else if len(c.queue) > 0 {
+			// the request is still in the network: its reply cannot come before it is delivered
+			until = c.queue[0].due
+			if !until.After(now) {
+				simrt.Yield("simredis.await-delivery")
+				if len(c.replies) == 0 && len(c.queue) > 0 && !c.queue[0].due.After(time.Now()) {
+					simrt.Sleep(time.Microsecond)
+				}
+				continue
+			}
 		}
 		if !c.rdl.IsZero() && (until.IsZero() || c.rdl.Before(until)) {
 			if !c.rdl.After(now) {
@@ -507,15 +567,17 @@ func (c *conn) Read(p []byte) (int, error) {
 // Rates is a simple per-mille fault policy for commands that are not part of
 // the connection handshake.
 type Rates struct {
-	Latency, DropRequest, DropReply, ResetBefore, ResetAfter, ErrReply, Truncate int // per mille each
-	MaxDelay                                                                        time.Duration
-	ErrMsgs                                                                         []string
-	Enabled                                                                         *bool // nil: always; else consulted at each command
+	Latency, DropRequest, DropReply, ResetBefore, ResetAfter, ErrReply, Truncate int           // per mille each
+	Deferred                                                                     int           // per mille: request delivered late (up to MaxDefer), even after the client gave up
+	MaxDefer                                                                     time.Duration // default 5 s (longer than go-redis' 3 s read timeout: the retry can overtake the original)
+	MaxDelay                                                                     time.Duration
+	ErrMsgs                                                                      []string
+	Enabled                                                                      *bool // nil: always; else consulted at each command
 }
 
 // Policy builds a Fault function drawing from the run's tape.  A zero draw means "no fault".
 func Policy(r *simrt.Run, rt Rates) func(c *Cmd) Fault {
-	total := rt.Latency + rt.DropRequest + rt.DropReply + rt.ResetBefore + rt.ResetAfter + rt.ErrReply + rt.Truncate
+	total := rt.Latency + rt.DropRequest + rt.DropReply + rt.ResetBefore + rt.ResetAfter + rt.ErrReply + rt.Truncate + rt.Deferred
 	return func(c *Cmd) Fault {
 		if total == 0 || c.Handshake() || (rt.Enabled != nil && !*rt.Enabled) {
 			return Fault{}
@@ -559,8 +621,14 @@ func Policy(r *simrt.Run, rt Rates) func(c *Cmd) Fault {
 				msg = rt.ErrMsgs[r.Tape.Intn(len(rt.ErrMsgs))]
 			}
 			return Fault{Kind: ErrReply, Msg: msg}
-		default:
+		case pick(rt.Truncate):
 			return Fault{Kind: Truncate}
+		default:
+			max := rt.MaxDefer
+			if max <= 0 {
+				max = 5 * time.Second
+			}
+			return Fault{Kind: Deferred, ReqDelay: time.Duration(1 + r.Tape.Intn(int(max)))}
 		}
 	}
 }
